@@ -28,7 +28,19 @@ records whose methods are evaluated the same way; generator helpers are evaluate
                  clash agree on orientation), printed maxima = maxima of the lines listed below the heading (the message
                  names the print statement and the expression whose value is printed), report and CSV in the same order,
                  nothing depends on the iteration order of a set; the evaluated call of find_clashes binds every option
-                 parameter to the switch of the same name (positional or keyword); read_metadata receives an open file
+                 parameter to the switch of the same name (positional or keyword); read_metadata receives an open file;
+                 main is also evaluated without any switch given: the reader (a stub that follows the signature of
+                 parser.read_3d_structure - a truthy nucleic_acid_only keeps polynucleotide entities only) receives the
+                 same arguments with and without the switches and none of them, find_clashes receives every residue of
+                 the file's structure it would consider (chain nucleotide, nucleotide ligand, amino acid), and the listing
+                 of one clash list does not depend on the switches (`cli-structure`, `report-clashes`)
+
+Closed world, how conditions are read: BoolOp / not / conditional expressions / bool() are taken apart; a call of a helper
+whose body is evaluated here is transparent (its own conditions, incl. a returned condition, are the atoms); a condition
+must be a function of one feature of the definition, or of a combination of them (the value is the same wherever all
+features agree - `record is not None` after a helper that examined the pair); constant conditions and conditions that
+depend on something else are additional filters; a compound that cannot be taken apart and is neither is not decided
+(exit 2), never a violation; `while` loops over a work list of KD-tree pairs carry the pair on a loop frame.
 """
 from __future__ import annotations
 
